@@ -63,7 +63,7 @@ def check(run):
         nblocks = sum(1 for sp in specs if any(c in ("srxlpma" if odh & 2 else "srxlpm") for c in sp))
         ref = refexp.RefExporter(fp, bps)
         sessions.append((line, ref, [])); kinds.append([nblocks])
-    for s_ in refexp.alignment_sweep(rng, range(0, 2101, 2), rotate=True):
+    for s_ in refexp.alignment_sweep(rng, range(0, 2101), rotate=True):
         sessions.append(s_); kinds.append(None)
     res = E.run_sessions(run, sessions, need_rd=False)
     seen = set()
